@@ -44,6 +44,8 @@ pub fn scfg(t: &Task) -> SCfg {
             dup: true,
             loss: true,
             addr_in_use: t.proto == Protocol::Tcp,
+            // a transient send failure (the probe never left the host) is not an answer
+            probe_failed: true,
             ..SMenu::default()
         },
         burst: vec![],
@@ -296,7 +298,7 @@ pub fn run(args: &Args) -> i32 {
     rep.set("bound_completed", json!(bound));
     rep.set("horizon_hits", json!(stats.horizon_hits));
     rep.set("determinism_replays", json!(replays));
-    rep.set("rule", json!(format!("protocol {{icmp,tcp}} x first_ttl {{1,2,5,30,253,254}} x max_ttl {{1,3,6,64,254}} x max_inflight {{1,2,3,24,255}} x target distance {{1,2,3,6,silent}} x response latency {{0, 2 receive calls}}, 3 rounds: all executions of the real Strategy::run with <= {bound} deviations (delay, reorder, duplicate, loss at recv_probe; AddressInUse at send_probe for tcp); monitor on the send/receive call trace; states = nodes of the choice tree; distinct_nontrivial = distinct (send trace, publish times) digests")));
+    rep.set("rule", json!(format!("protocol {{icmp,tcp}} x first_ttl {{1,2,5,30,253,254}} x max_ttl {{1,3,6,64,254}} x max_inflight {{1,2,3,24,255}} x target distance {{1,2,3,6,silent}} x response latency {{0, 2 receive calls}}, 3 rounds: all executions of the real Strategy::run with <= {bound} deviations (delay, reorder, duplicate, loss at recv_probe; AddressInUse at send_probe for tcp, transient ProbeFailed at any send_probe); monitor on the send/receive call trace; states = nodes of the choice tree; distinct_nontrivial = distinct (send trace, publish times) digests")));
     for s in samples {
         rep.sample(s);
     }
